@@ -9,7 +9,7 @@ from fractions import Fraction
 from sa.core import AnalysisError, Report, loc, norm_src, fresh_copy
 from sa.consteval import ev, Opaque, NameRef
 from sa.paths import dotted, calls_in, call_name
-from sa.numconst import BITS, PREC, dtype_switch
+from sa.numconst import BITS, PREC, dtype_switch, round_to
 
 REL = "floating_point_algorithms.py"
 
@@ -551,6 +551,30 @@ def check_fma_accounting(r, repo, rule="R11.5"):
 
 
 
+def derive_next(bits, c):
+    """next(x) = x / c (away from zero) or x * c (towards zero), one correctly rounded operation.  For a normal x = m * 2^e with a
+    normal neighbour the question is scale free: with M = 2^(p-1), for every integer significand m in [M, 2M) the quotient m / c
+    must round to m + 1 and the product m * c to the float below m (m - 1, or M - 1/2 for m = M where the spacing halves).
+    m/c - m = m*d and m - m*c = m*g are linear in m, so the conditions are decided at the end points, in exact rationals:
+        away:    M*d > 1/2,  (2M-2)*d < 3/2,  2M - 1/2 < (2M-1)/c < 2M + 1
+        towards: 1/4 < M*g < 3/4,  (M+1)*g > 1/2,  (2M-1)*g < 3/2"""
+    M = Fraction(2) ** (PREC[bits] - 1)
+    if not (0 < c < 1):
+        return False, f"the multiplier {float(c)!r} is not inside (0, 1)"
+    d, g = 1 / c - 1, 1 - c
+    H = Fraction(1, 2)
+    conds = [
+        (M * d > H, f"x / c does not pass the midpoint above a power of two (m = 2^{PREC[bits] - 1}: excess {float(M * d)!r} ulp <= 1/2)"),
+        ((2 * M - 2) * d < 3 * H, f"x / c overshoots the next float for large significands (excess {float((2 * M - 2) * d)!r} ulp >= 3/2)"),
+        (2 * M - H < (2 * M - 1) / c < 2 * M + 1, "x / c misses the next power of two for the largest significand"),
+        (Fraction(1, 4) < M * g < Fraction(3, 4), f"x * c misses the float below a power of two (deficit {float(M * g)!r} ulp outside (1/4, 3/4))"),
+        ((M + 1) * g > H, f"x * c does not pass the midpoint below m = 2^{PREC[bits] - 1} + 1"),
+        ((2 * M - 1) * g < 3 * H, "x * c undershoots the previous float for large significands"),
+    ]
+    bad = [msg for okc, msg in conds if not okc]
+    return (not bad, "; ".join(bad) if bad else "")
+
+
 def run(repo, tier):
     r = Report("C11", tier, repo, level="other", design_ref="§3/C11")
     r.explanation = (
@@ -562,7 +586,7 @@ def run(repo, tier):
     r.trusted_base = ["Python ast", "IEEE-754 binary16/32/64 precisions"]
     r.assumptions = ["formulas P = 2^(p-1)+1, Q = 2^(p-1) (Graillat, Muller hal-04624238) are the correct ones"]
     r.rule("R11.1", "P/Q constants equal 2^(p-1)+1 / 2^(p-1) (resp. 2^(p-2)+1 / 2^(p-2)) at every definition site and in the docstrings", floor=12)
-    r.rule("R11.2", "next(): the multiplier constant is 1 - 2^-p with p the precision of the dtype; direction of the step", floor=4)
+    r.rule("R11.2", "next(): for every normal x with a normal neighbour, x / c rounds to the next float away from zero and x * c to the next float towards zero - derived per format for the multiplier that is there, scale free over all significands (end-point conditions in exact rationals); direction of the step", floor=4)
     r.rule("R11.4", "3Sum is an exact decomposition and the rounded compound operations account for every error term: under exact-arithmetic semantics with 2Sum / Dekker contracts, s + e + t == x + y + z and (arm taken when the residual vanishes) + residual == exact result", floor=5)
     r.rule("R11.5", "emulated FMA (a7, a8, a9; both copies): an arm of the result accounts for every word of x*y + z, and an arm selected by a zero test is exact or the high word of an error-free pair under the facts of that test", floor=12)
     r.rule("R11.3", "the emulated FMA variants call two_prod with fix_overflow, and that guard is the sign-symmetric |xh*yh| > largest fallback", floor=2)
@@ -706,8 +730,11 @@ def run(repo, tier):
     for bits in BITS:
         p = PREC[bits]
         val = eval_for_format(cexpr, bits, nx, local_env(nx, bits))
-        ok = isinstance(val, float) and Fraction(val) == 1 - Fraction(1, 2 ** p)
-        r.ob("R11.2", f"{REL}::next multiplier float{bits}", ok, f"`{norm_src(cexpr)}` for float{bits} (p={p}) gives {val!r}, expected 1 - 2**-{p}", loc(REL, cexpr))
+        ok, why = isinstance(val, float), "not a float constant"
+        if ok:
+            ok, why = derive_next(bits, Fraction(round_to(bits, val)))
+        r.ob("R11.2", f"{REL}::next multiplier float{bits}", ok, f"`{norm_src(cexpr)}` for float{bits} (p={p}) gives {val!r}: {why}", loc(REL, cexpr),
+             sample=dict(rule="R11.2", bits=bits, multiplier=repr(val), derived="fl(m/c) = m + 1 and fl(m*c) = pred(m) for every significand m in [2^(p-1), 2^p)"))
     # direction selects
     ok, detail = next_direction_ok(ret, cname)
     r.ob("R11.2", f"{REL}::next direction", ok, f"next returns `{norm_src(ret.value)}`: moving away from zero must divide by the multiplier, towards zero multiply; {detail}", loc(REL, ret))
